@@ -225,7 +225,7 @@ fn diff_plain(t: &Tuple, d: &Document) -> Option<String> {
     if d.trailer.has(b"Encrypt") {
         return Some("trailer still has /Encrypt".into());
     }
-    diff_docs_sym(&t.plain, d).map(|m| if t.kind.is_deep() { format!("{}{}", deep_note(t, d), vharness::run::truncate(&m, 260)) } else { m })
+    diff_docs_sym(&t.plain, d).map(|m| if t.kind.is_deep() { format!("{}{}", deep_note(t, d), vharness::run::truncate(&m, 100)) } else { m })
 }
 
 fn outcome_kind<T>(r: &Result<Result<T, lopdf::Error>, String>) -> String {
@@ -442,8 +442,8 @@ fn check_encrypted(t: &Tuple, d: &Document) -> Vec<Failure> {
     let mut c = d.clone();
     let r = try_decrypt(&mut c, &t.user);
     let problem = match &r {
-        Ok(Ok(())) => diff_plain(t, &c),
-        _ => Some(outcome_kind(&r)),
+        Ok(Ok(())) => diff_plain(t, &c).map(|m| format!("decrypt(user) of this state returned Ok but {}", m)),
+        _ => Some(format!("decrypt(user) of this state returned {}", outcome_kind(&r))),
     };
     if let Some(p) = problem {
         out.push(Failure { inv: "encrypted-state-decryptable", detail: p, finding: classify_long_password(t, &t.user), hard: true });
@@ -874,7 +874,11 @@ fn explore(run: &Run, t: &Tuple) -> Stats {
                     if key.0.encrypted() {
                         st.reached_encrypted = true;
                     }
-                    if seen.insert(key) {
+                    // quick bound, revision 6: a document re-protected with the kept state is judged (both passwords
+                    // open it) but not explored further - revision 5 runs the same code with a cheaper hash and is
+                    // explored in full
+                    let leaf = key.2 && t.cfg.revision() == 6 && !run.thorough;
+                    if seen.insert(key) && !leaf {
                         next.push(Node { abs: key.0, reloaded: key.1, kept: key.2, doc: step.doc, path });
                     }
                 }
@@ -973,7 +977,11 @@ fn specs(run: &Run, depths: Depths) -> (Vec<Spec>, u64) {
                         if r6 && mi >= 2 && mi != 2 + (ci + pi + ki) % 8 {
                             continue;
                         }
-                        let in_quick = mi == 0 && parity && (!r6 || (ci + pi + ki) % 3 == 0);
+                        // the two newer Crypt-parameter documents: quick takes three password pairs (lopdf against itself
+                        // cannot see which filter was chosen, only that both directions chose the same)
+                        let crypt_extra = matches!(kind, DocKind::CryptArray | DocKind::CryptBare);
+                        let pair_in_quick = !crypt_extra || matches!(pairs[pi].0, "distinct" | "empty_user" | "both_empty");
+                        let in_quick = mi == 0 && parity && pair_in_quick && (!r6 || (ci + pi + ki) % 3 == 0);
                         let take = if run.thorough || in_quick {
                             true
                         } else {
@@ -994,6 +1002,13 @@ fn specs(run: &Run, depths: Depths) -> (Vec<Spec>, u64) {
     // the one whose empty user password makes the loader decrypt; thorough every pair), permissions = all
     for (ci, cfg) in configs.iter().enumerate() {
         for (ki, kind) in [DocKind::DeepLoadable, DocKind::DeepMemory].into_iter().enumerate() {
+            // quick, the 1100-level document: one configuration per (version, stream method, string method) -
+            // nesting meets the configuration only through the method applied to strings and stream bodies
+            // V2 key lengths other than 40 and 128 add nothing here either
+            let reduced = cfg.identity_in_cf || (cfg.has_filters() && !cfg.em) || matches!(cfg.ver, vharness::refcrypt::menu::Ver::V2(b) if b != 40 && b != 128);
+            if !run.thorough && reduced {
+                continue;
+            }
             for (pi, pair) in pairs.iter().enumerate() {
                 if !run.thorough && pair.0 != "distinct" && pair.0 != "empty_user" {
                     continue;
@@ -1016,8 +1031,10 @@ fn specs(run: &Run, depths: Depths) -> (Vec<Spec>, u64) {
             }
             for pi in 0..pairs.len() {
                 for (ki, kind) in [DocKind::Page, DocKind::Strings].into_iter().enumerate() {
-                    // quick: the page document; revision 6 every second (shape, pair)
-                    if !run.thorough && (ki > 0 || (cfg.revision() == 6 && (ci + si + pi) % 2 != 0)) {
+                    // quick: the page document; revision 6 (which differs from revision 5 only in the hash) with
+                    // EncryptMetadata true and three password pairs
+                    let r6_quick = cfg.em && matches!(pairs[pi].0, "distinct" | "empty_user" | "both_empty");
+                    if !run.thorough && (ki > 0 || (cfg.revision() == 6 && !r6_quick)) {
                         continue;
                     }
                     out.push(Spec { kind, cfg: cfg.clone(), pair: pi, perms: all, table: (ci + si + pi) % 2 == 0, id_shape: shape, depth: 0 });
